@@ -32,6 +32,17 @@ P.assume("points-to inside a function is flow-insensitive and collapses array el
          "assumed to write through every pointer parameter that is not pointer-to-const")
 P.assume("a static pointer object whose value is copied into a local and then written through is only detected at the "
          "assignment of the static pointer itself (there is no non-const static pointer in the library: see globals)")
+P.assume("reads of simulation members by the integrating thread itself outside the lock are not obligations: the only "
+         "concurrent writer is the server thread, which (lockset.server, serialise_frame) writes the simulation only under "
+         "the mutex (serialise frame) or the run-control word `status`; in reb_server_start reads ARE obligations")
+# Genuine defects found by this pack on the pinned tree (obligations kept; native reproductions in tools/repro/):
+#  * serialise_frame.member.ri_ias15.N_allocated: reb_simulation_save_to_stream shrinks ri_ias15.N_allocated to 3N; if N
+#    later grows again reb_integrator_ias15_alloc reallocates AND clears b/e/csb/csx/csv, so one served /simulation request
+#    changes the trajectory bits (tools/repro/C19_serving_alters_ias15_trajectory.py).
+#  * lockset.integrate.server.call.reb_check_exit#1 / call.reb_simulation_synchronize#1 / write.dt#2:
+#    reb_simulation_integrate_raw synchronises the simulation and restores dt OUTSIDE the locked region; a request served
+#    there returns a half-synchronised state with the shortened last dt, from which the run does not continue
+#    identically (tools/repro/C19_snapshot_during_unlocked_synchronize.py).
 P.not_decided.append("thread scheduling, the pthread implementation and the hardware memory model are not modelled")
 
 _LIB = {}
@@ -250,6 +261,9 @@ def check_events(v, tag, fname, flow, S, include_reads):
         held = flow.events[key]
         if kind == "read" and not include_reads:
             continue
+        if what == "server_data" and kind in ("read", "write-through"):
+            continue        # the server's own bookkeeping record (mutex, flags), not simulation state; reassignment
+                            # of the pointer itself (kind "write") is still checked
         name = "%s.%s.%s#%d" % (tag, kind, nm(what), ords[key])
         if held == {1}:
             v.ground(name + ".under_lock", True, "line %s: mutex held" % line)
